@@ -107,7 +107,23 @@ func (b *siteBuilder) asset(siblings []string) string {
 		return u
 	case 7: // an asset that redirects
 		u := b.name("r", "")
-		b.site[u] = &Res{Kind: "redirect", Status: []int{301, 302, 307, 308}[b.pick("code", 4)], Loc: b.leaf()}
+		loc := ""
+		switch b.pick("assetloc", 6) {
+		case 0, 1, 2:
+			loc = b.leaf()
+		case 3: // a Location that cannot become a request: only this target may be dropped, not its siblings
+			loc = []string{"intent://open/#Intent;scheme=app;end", "ftp://ftp.example.com/f.png", "http://localhost/x.png", "mailto:a@example.com", "javascript:void(0)"}[b.pick("badassetloc", 5)]
+			b.feat["asset-redirect-to-invalid"] = true
+		case 4:
+			b.n++
+			loc = fmt.Sprintf("http://%s/y%d.png", ExcludedHost, b.n)
+			b.feat["asset-redirect-to-excluded"] = true
+		default: // two hops
+			mid := b.name("r", "")
+			b.site[mid] = &Res{Kind: "redirect", Status: 302, Loc: b.leaf()}
+			loc = mid
+		}
+		b.site[u] = &Res{Kind: "redirect", Status: []int{301, 302, 307, 308}[b.pick("code", 4)], Loc: loc}
 		b.feat["asset-redirect"] = true
 		return u
 	case 8:
